@@ -950,6 +950,93 @@ def config_variant(rng: random.Random, p_each: float = 0.5) -> dict:
     return cfg
 
 
+# ---- (7) in-place edits of one network object between solver calls ----------------------------------------------------
+def replace_rule(bnet: str, var: str, expr: str) -> str:
+    return to_bnet([(v, expr if v == var else e) for v, e in parse_rules(bnet)])
+
+
+def random_edit(rng: random.Random, bnet: str):
+    """(variable, new expression): a new update function for one variable - over the inputs it already has (a different truth table, the negation,
+    one input dropped), over other variables of the network, a constant, or the identity (the variable becomes a source)."""
+    rules = parse_rules(bnet)
+    names = [v for v, _ in rules]
+    v, old = rng.choice(rules)
+    ins = sorted({w for w in re.findall(r"[A-Za-z_][A-Za-z0-9_]*", old) if w in names})
+    r = rng.random()
+    if r < 0.35 and ins:
+        new = dnf(ins, [rng.randint(0, 1) for _ in range(1 << len(ins))])
+    elif r < 0.45:
+        new = f"!({old})"
+    elif r < 0.55 and len(ins) > 1:
+        keep = rng.sample(ins, len(ins) - 1)
+        new = dnf(sorted(keep), [rng.randint(0, 1) for _ in range(1 << len(keep))])
+    elif r < 0.85:
+        k = rng.randint(1, min(3, len(names)))
+        new_ins = sorted(rng.sample(names, k))
+        new = dnf(new_ins, [rng.randint(0, 1) for _ in range(1 << k)])
+    elif r < 0.93:
+        new = v
+    else:
+        new = rng.choice(["true", "false"])
+    return v, new
+
+
+EDIT_FIRST = (norm("a, a | b; b, a & c; c, !b | c"), [["a", "b"], ["b", "a & !c"], ["c", "!b & c"]])  # the instance that revealed the shape
+
+
+def edit_sequences(seed: int, name: str, bnet: str, count: int):
+    """`count` call sequences on ONE network object: [["query", {...}] | ["edit", var, expr], ...].  The first ones are systematic (all three problem
+    kinds, an edit, all three problem kinds again; the same with two edits, with an edit that is taken back, with reversed time), the rest seeded."""
+    names = variables(bnet)
+    rng = random.Random(f"{seed}-{name}-edits")
+
+    def q(problem, **kw):
+        d = {"problem": problem, "reverse": False, "ensure": {}, "avoid": [], "sources": "default", "source_list": None, "limit": None}
+        d.update(kw)
+        return ["query", d]
+
+    def rq():
+        problem = rng.choice(["min", "max", "fix"])
+        ensure = random_space(rng, names, rng.choice([0, 0, 0.3]))
+        if problem == "max" and len(ensure) == len(names):
+            ensure.pop(sorted(ensure)[0])
+        src = rng.choice(["default", "default", "default", "none", "true"])
+        return q(problem, reverse=rng.random() < 0.3, ensure=ensure, avoid=[random_space(rng, names, 0.4) for _ in range(rng.choice([0, 0, 1]))],
+                 sources=src, limit=rng.choice([None, None, None, None, 1, 2]))
+
+    def edits(k):
+        text, out = bnet, []
+        for _ in range(k):
+            v, e = random_edit(rng, text)
+            text = replace_rule(text, v, e)
+            out.append(["edit", v, e])
+        return out
+
+    allq = [q("min"), q("max"), q("fix")]
+    seqs = [
+        allq + edits(1) + allq,
+        allq + edits(2) + allq,
+        [q("fix")] + edits(1) + [q("fix")] + edits(1) + [q("fix")] + edits(1) + [q("fix")],
+        [q("min", reverse=True), q("max", reverse=True)] + edits(1) + [q("min", reverse=True), q("max", reverse=True), q("fix", reverse=True)],
+        edits(1) + allq,  # edited before the first call
+    ]
+    e1 = edits(1)
+    old = dict(parse_rules(bnet))[e1[0][1]]
+    seqs.append(allq + e1 + allq + [["edit", e1[0][1], old]] + allq)  # an edit that is taken back
+    for s in seqs[:count]:
+        yield s
+    for _ in range(max(0, count - len(seqs))):
+        s = []
+        text = bnet
+        for _ in range(rng.randint(2, 4)):
+            s += [rq() for _ in range(rng.randint(1, 2))]
+            v, e = random_edit(rng, text)
+            text = replace_rule(text, v, e)
+            s.append(["edit", v, e])
+        s += [rq() for _ in range(rng.randint(1, 3))]
+        yield s
+
+
 def interleave(*gens):
     """Round-robin over generators (each argument is (generator, k): take k items per round) until all are exhausted."""
     its = [(iter(g), k) for g, k in gens]
